@@ -261,6 +261,10 @@ def mix_cases(rng=None, n=0):
     """variants mixing trivially destructible alternatives with tracked class types (comp/holders/mix_part.hpp)"""
     return [("ex-mix", ["type mix F", "run 5"])] + [("g-mix-%d" % i, ["type mix F", "run %d" % rng.randrange(0, 10**6)]) for i in range(n)]
 
+def err_cases(rng=None, n=0):
+    """expected<E, T> over a 64-bit enum class, int and a struct error type (comp/holders/err_part.hpp)"""
+    return [("ex-err", ["type err F", "run 5"])] + [("g-err-%d" % i, ["type err F", "run %d" % rng.randrange(0, 10**6)]) for i in range(n)]
+
 def thr_cases(rng=None, n=0):
     """fault injection at every element construction point (comp/holders/throw_part.hpp)"""
     cs = [("ex-thr", ["type thr F", "sweep 5 6"])]
@@ -282,6 +286,9 @@ def corpus(exp_copy_assign=True):
     cs.append(("corpus-tp-bytewise-copy", ["type tp F", "run 5"]))
     # seeded change caught in round 2 (follow-up 3): ~variant skips the destructor walk when SOME alternative is trivially destructible
     cs.append(("corpus-mix-variant-dtor", ["type mix F", "run 5"]))
+    # seeded changes caught in round 2 (follow-up 4): indicates_error casting enums to int; tuple_cat result type decayed
+    cs.append(("corpus-err-wide-enum", ["type err F", "run 5"]))
+    cs.append(("corpus-tuple-cat-references", ["type tup F", "static"]))
     cs.append(("corpus-thr-sweep", ["type thr F", "sweep 5 6"]))
     # seeded change caught in round 2: manual_box::initialize with T{args...} (vector<int>(3, 7) became {3, 7})
     cs.append(("corpus-il-initialize-braces", ["type il F", "fwd 3 7", "one 3"]))
